@@ -55,7 +55,7 @@ fn standalone_of(p: &Program, f: &FrameSpec) -> Program {
 
 pub fn generate(seed: u64, tier: Tier) -> Scenario {
     let mut rng = Rng::new(derive(seed, 5, 0));
-    let mut cfg = GenConfig { max_dim: 64, max_frames: 6, min_frames: 2, max_pixels: 64 * 64, noise: false, orientation: false, ..GenConfig::small() }.swarm(&mut rng);
+    let mut cfg = GenConfig { max_dim: 64, max_frames: 6, min_frames: 2, max_pixels: 64 * 64, noise: false, orientation: false, features: false, ..GenConfig::small() }.swarm(&mut rng);
     cfg.noise = false;
     cfg.orientation = false;
     cfg.blending = true;
